@@ -243,6 +243,36 @@ theorem C02_wrappers_rest_are_source (C : WC) (s : OSt) :
   ⟨Lemmas.WrapSource.notify_method_dead C s, Lemmas.WrapSource.listener_deleted_is_source C s,
    Lemmas.WrapSource.argument_transforms_are_source⟩
 
+open TraitsVerif.Model.PyW in
+/-- `TraitChangeNotifyWrapper.init` and `ExtendedTraitChangeNotifyWrapper` (continuation of
+`C02_wrappers_rest_are_source`).
+ 1. `init(handler, owner, target)` is `initSpec`: a bound method with a live `__self__` gets a weak reference to its
+    owner with `listener_deleted` as callback, the method name, the METHOD listener and the transform SELECTED by
+    `argument_transforms[co_argcount - 1]`; a function (or a method without `__self__`) gets no name, the handler,
+    the FUNCTION listener and `argument_transforms[co_argcount]` (after a weak reference to `target` when one is
+    given); more than four arguments raise `TraitNotificationError` before a listener or transform is installed;
+    the argument count is returned.  Together with the three tables this fixes what a handler of each arity receives.
+ 2. `ExtendedTraitChangeNotifyWrapper`: its `_dispatch_change_event` and function listener are the plain dispatch
+    (`dispatchSem`: call the handler, route an exception to `handle_exception`) — NO `_change_accepted` filter (an
+    Uninitialized old value and equal values are passed on, no instance trait is created) and no tracers; its method
+    listener does the same for a live owner and nothing for a dead one. -/
+theorem C02_wrapper_init_and_extended_are_source (C : WC) (s : OSt) (target : Bool)
+    (hc : C.cand ≠ .self) (h1 : 1 ≤ C.candArgc) :
+    runInit C Generated.WrapProg.TraitChangeNotifyWrapper_init
+        [.self, Lemmas.WrapSource.candVal C.cand, .ownerList, if target then .target else .none] s
+      = Lemmas.WrapSource.initSpec C target
+    ∧ run C Generated.WrapProg.ExtendedTraitChangeNotifyWrapper_dispatch_change_event
+        [.self, .object, .name, .id C.old, .id C.new, .handler] s = Lemmas.WrapSource.dispatchSem C s
+    ∧ run C Generated.WrapProg.ExtendedTraitChangeNotifyWrapper_notify_function_listener
+        [.self, .object, .name, .id C.old, .id C.new] s = Lemmas.WrapSource.dispatchSem C s
+    ∧ (∀ k, C.wrapName = some k →
+        run C Generated.WrapProg.ExtendedTraitChangeNotifyWrapper_notify_method_listener
+          [.self, .object, .name, .id C.old, .id C.new] s
+        = if C.ownerAlive then Lemmas.WrapSource.dispatchSem C s else (.ok .none, s)) :=
+  ⟨Lemmas.WrapSource.init_is_source C s target hc h1, Lemmas.WrapSource.ext_dispatch_change_event_is_source C s,
+   Lemmas.WrapSource.ext_notify_function_is_source C s,
+   fun k hk => Lemmas.WrapSource.ext_notify_method_is_source C s k hk⟩
+
 /-! ### Exactly once -/
 
 /-- **Full statement** (all standard traits, including those that store the
